@@ -3,6 +3,7 @@
 A plan is plain JSON data generated completely before execution from one
 `random.Random(run_seed)`; it never depends on results.  See DESIGN.md 4.2.
 """
+import math
 import random
 
 MU0 = 1.25663706127e-6
@@ -919,6 +920,10 @@ def _is_num(f):
 
 # --------------------------------------------------------------- frequencies
 
+PROJECT_FREQUENCIES = [7, 7.15, 13.8, 14, 14.05, 28.074, 28.5, 29.98, 148, 299.8, 450, 600, 1000,
+                       149.9, 2.998, 59.96, 1.0, 100.0, 10.0, 300.0]
+
+
 def gen_pool(rng, m, k=None):
     """2..5 frequencies, >= 1 % apart; biased to straddle the small-radius
     threshold (radius = 1e-4 wavelength) and the skin-effect asymptote
@@ -978,6 +983,17 @@ def gen_pool(rng, m, k=None):
         if rng.random() < 0.5:
             cands = [int(c) if c == int(c) else c for c in cands]
             probes.append('int_typed_frequency')
+    if rng.random() < 0.12 and not wide:
+        # the frequencies of the project's own example inputs (test/*.pym):
+        # values at which derived quantities are special - 299.8 MHz makes the
+        # wavelength exactly 1 with the program's constant - and which users
+        # therefore really type.  Half of the time it is the first frequency.
+        near = sorted(PROJECT_FREQUENCIES, key=lambda x: abs(math.log(x / base)))[:rng.choice([1, 2])]
+        for x in near:
+            if x not in cands:
+                cands.insert(0 if rng.random() < 0.5 else rng.randrange(len(cands) + 1), x)
+        cands = cands[:5]
+        probes.append('project_frequency')
     if rng.random() < 0.2:
         # a near-duplicate of one pool entry: 'unchanged within tolerance'
         # short-cuts only show between frequencies that are almost equal
@@ -1639,6 +1655,7 @@ def floor_plans(base_seed, tier='quick'):
     plans += tolerance_floor_plans(base_seed, tier)
     plans += regime_floor_plans(base_seed, tier)
     plans += twin_floor_plans(base_seed, tier)
+    plans += option_floor_plans(base_seed, tier)
     return plans
 
 
@@ -2039,6 +2056,14 @@ def fault_floor_plans(base_seed, tier='quick'):
         cases.append(('far_bad%d' % k, [['FAR', 0], ['OBS_NUM'], ['FAR_BAD', k]]))
     cases.append(('premature', [['SET_F', 1], ['FAR', 0, 'x'], ['NEAR', 0, 'x'], ['SET_F', 0], ['COMPUTE']]))
     cases.append(('early_report', [['NEAR', 0], ['REPORT_EARLY'], ['SET_F', 1], ['REPORT_EARLY'], ['SET_F', 0], ['COMPUTE']]))
+    # ... and without touching the frequency again before the compute: what
+    # the premature request derived from the old solution must not survive it
+    obs = [['COMPUTE'], ['FAR', 0], ['NEAR', 0], ['OBS_NUM'], ['OBS_REPORT', ['far-field', 'near-field']], ['SET_F', 0],
+           ['COMPUTE']]
+    cases.append(('premature_far_then_compute', [['SET_F', 1], ['FAR', 0, 'x']] + obs))
+    cases.append(('premature_near_then_compute', [['SET_F', 1], ['NEAR', 0, 'x']] + obs))
+    cases.append(('early_report_then_compute', [['NEAR', 0], ['FAR', 0], ['SET_F', 1], ['REPORT_EARLY']] + obs))
+    cases.append(('early_misc_then_compute', [['SET_F', 1], ['OBS_MISC', 5], ['OBS_CMDLINE']] + obs))
     for opk in ('SET_F', 'COMPUTE', 'FAR', 'NEAR'):
         for at in (1, 4, 40, 400, 2500):
             if opk == 'SET_F':
@@ -2369,4 +2394,76 @@ def twin_floor_plans(base_seed, tier='quick'):
             plans.append(dict(version=1, run_seed=seed, tier=tier, floor=True, config='plain',
                               hist=env_side(rng, False, 'hist'), orac=env_side(rng, False, 'orac'),
                               disk={}, tasks=[t], schedule=[0] * len(ops)))
+    return plans
+
+
+# --------------------------------------------------------------- option floor
+
+OPTION_TOGGLES = [['--mininec-version', '12'], ['--mininec-version', '13'], ['--mininec-version=9'],
+                  ['--ff-power=100'], ['--ff-distance=1000'], ['--nf-power=50'], ['-T'],
+                  ['--option', 'far-field-absolute'], ['--option', 'none'], ['--option', 'near-field'],
+                  ['--boundary=circular'], ['--frequency-steps=1'], ['--frequency-increment=0']]
+
+
+def option_floor_plans(base_seed, tier='quick'):
+    """Two command lines that differ in exactly one optional option, run
+    alternately in one interpreter with every output file requested: an
+    option given on one command line must not be in force for the next one
+    (module-level defaults, argparse namespaces, class attributes).  Also
+    the project's own example frequencies as the *first* frequency of an
+    object (299.8 MHz: wavelength exactly 1)."""
+    plans = []
+    # (the BASIC writer does not support mixtures of the two load families)
+    kinds_cycle = [['rlc'], ['laplace'], ['trap'], ['rlc'], ['impedance'], ['trap'], ['laplace'], []]
+    for i, tog in enumerate(OPTION_TOGGLES):
+        seed = base_seed * 1000003 + 999500 + i
+        rng = random.Random(seed)
+        env = ['free', 'ideal', 'real2'][i % 3]
+        m = gen_model(rng, env=env, kinds=kinds_cycle[i % len(kinds_cycle)])
+        pool, probes = gen_pool(rng, m, k=2)
+        a = ['-f', repr(pool[0])] + m.argv() + field_args(rng, m, force=['far-field', 'near-field']) \
+            + ['--output-cmdline', 'o.txt', '--output-basic-input', 'b.in']
+        if tog[0].startswith('--mininec-version') or tog[0] == '-T' or tog[0].startswith('--boundary'):
+            a = [x for x in a if not x.startswith(tog[0].split('=')[0])]
+        b = a + tog
+        inc = float(repr(round(pool[1] - pool[0], 6))) or 0.1
+        ops = [['RUN', b], ['RUN', a], ['RUN', b], ['SWEEP', a, inc, 2, i % 4], ['RUN', b], ['RUN', a]]
+        t = dict(kind='cli', ops=[_copy_op(o) for o in ops], template=m.template, env=m.env,
+                 features=sorted(set(m.features + ['option_floor'])), probes=probes,
+                 npulses=m.min_pulses() + 2 * len(m.geo), pool=list(pool))
+        plans.append(dict(version=1, run_seed=seed, tier=tier, floor=True, config='plain',
+                          hist=env_side(rng, False, 'hist'), orac=env_side(rng, False, 'orac'),
+                          disk={}, tasks=[t], schedule=[0] * len(ops)))
+    # the project's example frequencies first on an object of matching size
+    for j, f0 in enumerate([299.8, 299.8, 299.8, 299.8, 29.98, 149.9, 7, 14, 28.074, 450, 1.0, 100.0]):
+        seed = base_seed * 1000003 + 999700 + j
+        rng = random.Random(seed)
+        L = min(max(round(150.0 / f0, 3), 0.3), 40.0)
+        env = ['free', 'ideal'][j % 2]
+        # templates with wires joined at like ends (reversed halves) included
+        m = gen_model(rng, env=env, kinds=[[], ['skin_c'], ['insulation'], ['rlc']][j % 4], length=L,
+                      template=(['vee', 'tee_free', 'star', 'dipole', 'bent3'] if env == 'free'
+                                else ['tee_gnd', 'gnd_star', 'inv_l', 'monopole'])[(j // 2) % 4])
+        pool = [f0, float(repr(round(f0 * 0.5, 6))), float(repr(round(f0 * 1.033, 6))), f0,
+                float(repr(round(f0 + 10 if f0 > 100 else f0 * 1.2, 6)))]
+        near = gen_near(rng, m)
+        # every kind of request at the special frequency, each followed by more work
+        ops = [['COMPUTE'], ['FAR', 0], ['OBS_NUM'], ['NEAR', 0], ['OBS_NUM'], ['COMPUTE'], ['OBS_NUM'],
+               ['FAR', 0], ['NEAR', 0], ['OBS_NUM']]
+        for k in (1, 2, 3, 4, 0):
+            ops += [['SET_F', k], ['COMPUTE'], ['FAR', 0], ['OBS_NUM']]
+        ops += [['NEAR', 0], ['OBS_REPORT', ['far-field', 'near-field']], ['OBS_MISC', 4], ['COMPUTE'], ['OBS_NUM']]
+        t = dict(kind='api', builder='cli', argv=m.argv(), pool=pool, fars=[gen_far(rng)], nears=[near],
+                 ops=ops, template=m.template, env=m.env,
+                 features=sorted(set(m.features + ['project_frequency_first'])), probes=['project_frequency'],
+                 npulses=m.min_pulses() + 2 * len(m.geo))
+        argv = ['-f', repr(f0)] + m.argv() + field_args(rng, m, force=['far-field', 'near-field']) \
+            + ['--output-cmdline', 'pf.txt']
+        cops = [['SWEEP', list(argv), 10.0 if f0 > 100 else float(repr(round(f0 * 0.05, 6))), 3, j % 4]]
+        c = dict(kind='cli', ops=[_copy_op(o) for o in cops], template=m.template, env=m.env,
+                 features=sorted(set(m.features + ['project_frequency_first'])), probes=['project_frequency'],
+                 npulses=m.min_pulses() + 2 * len(m.geo), pool=pool[:2])
+        plans.append(dict(version=1, run_seed=seed, tier=tier, floor=True, config='plain',
+                          hist=env_side(rng, False, 'hist'), orac=env_side(rng, False, 'orac'),
+                          disk={}, tasks=[t, c], schedule=[0] * len(ops) + [1] * len(cops)))
     return plans
